@@ -160,6 +160,8 @@ func c14(c *Ctx) {
 		}
 	}
 	boundsFor(c, "C14", entries)
+	accFreshFor(c, 2, "codecs/h265_packet.go")
+	c.R.Infof("CTR.copyfill: %d tail cop(ies) into a per-fragment buffer checked", c.copyFillSeen)
 	r.Infof("CTR.twofrag: %d fragment loop(s) recognised and reached (a loop of another shape is not decided)", len(c.fragLoopsSeen))
 	r.Infof("CTR.lenprefix: %d length-prefix/data pair(s) recognised and reached", len(c.lenPairsSeen))
 }
